@@ -369,6 +369,17 @@ pub(crate) fn load_defs(ctx: &mut Context, defs: Defs) -> Vec<String> {
         resolver.unmarked.insert(id);
     }
 
+    // Base units depend on nothing, and a definition can refer to one by its
+    // long name, which is not an entry of its own: they go first.
+    let base_units = resolver
+        .unmarked
+        .iter()
+        .filter(|id| matches!(resolver.input.get(id).map(|def| &**def), Some(Def::BaseUnit { .. })))
+        .cloned()
+        .collect::<Vec<_>>();
+    for id in base_units {
+        resolver.visit(&id);
+    }
     while let Some(name) = resolver.unmarked.iter().next().cloned() {
         resolver.visit(&name)
     }
